@@ -26,6 +26,16 @@ from vlib.harness import AND, OR, NOT, IFF, IMPLIES, EQ, LE, LT, ITE
 
 PID = 'C08'
 NS = types.SimpleNamespace
+REFRESH = []          # calls of the stand-in system's refresh hooks, per process
+
+
+def fake_system(dae):
+    """stand-in for System as EIG sees it: the analysis must ask for current time constants and Jacobians before reducing"""
+    ss = NS(dae=dae, exist=NS(tds={}, pflow_tds={}), TDS=NS(initialized=True))
+    ss._store_tf = lambda models: REFRESH.append('Tf')
+    ss.j_update = lambda models=None, **k: REFRESH.append('J')
+    return ss
+
 
 
 class _Log:
@@ -57,6 +67,7 @@ def sym_eig():
 
 def real_eig(n, m, fx, fy, gx, gy, Tf, names):
     """the unmodified EIG methods on real kvxopt data"""
+    del REFRESH[:]
     import kvxopt
     from andes.routines.eig import EIG
     from andes.linsolvers.solverbase import Solver
@@ -64,7 +75,7 @@ def real_eig(n, m, fx, fy, gx, gy, Tf, names):
     sp = lambda a, r, c: kvxopt.sparse(kvxopt.matrix(np.array(a, dtype=float).reshape(r, c)))
     dae = NS(n=n, m=m, fx=sp(fx, n, n), fy=sp(fy, n, m), gx=sp(gx, m, n), gy=sp(gy, m, m), Tf=np.array(Tf, dtype=float),
              x_name=list(names))
-    e.system = NS(dae=dae)
+    e.system = fake_system(dae)
     e.solver = Solver('klu')
     e.config = NS(tol=1e-6)
     e.zstate_idx = np.array([], dtype=int)
@@ -102,7 +113,7 @@ def h_state_matrix(n, m, zpat, first=None):
                 Tf[i] = T[i]
             dae = NS(n=n, m=m, fx=dshim.M(fx, (n, n)), fy=dshim.M(fy, (n, m)), gx=dshim.M(gx, (m, n)),
                      gy=dshim.M(gy, (m, m)), Tf=Tf, x_name=list(names))
-            e.system = NS(dae=dae)
+            e.system = fake_system(dae)
             if first is not None:          # an earlier analysis on the same object with other time constants
                 Tf1 = np.empty(n, dtype=object)
                 for i in range(n):
@@ -130,7 +141,10 @@ def h_state_matrix(n, m, zpat, first=None):
             ent = lambda i, j: As[i][j]
             shape = As.shape
         out = [('state matrix has one row/column per state with non-zero time constant', tuple(shape) == (len(D), len(D))),
-               ('reported state names are exactly the remaining states', sorted(e.x_name) == sorted(names[i] for i in D))]
+               ('reported state names are exactly the remaining states', sorted(e.x_name) == sorted(names[i] for i in D)),
+               ('the analysis asks for the current time constants and Jacobians before it reduces them (the simulation updates them lazily)',
+                'Tf' in REFRESH and 'J' in REFRESH)]
+        del REFRESH[:]
         if tuple(shape) != (len(D), len(D)) or sorted(e.x_name) != sorted(names[i] for i in D):
             return out
         Dn = [names.index(nm) for nm in e.x_name]      # row/column a of the result belongs to the state it is named after
